@@ -31,18 +31,33 @@ type Ctx struct {
 	ModFuncs []*ssa.Function // every function (incl. closures) whose package is in the module, hand written
 	AllFuncs map[*ssa.Function]bool
 
-	cg, chaG *callgraph.Graph
-	Stats    map[string]int
-	Overlay  map[string][]byte
+	cg, chaG   *callgraph.Graph
+	Stats      map[string]int
+	Overlay    map[string][]byte
+	Normalised []string // declarations analysed under their reference names (alpha-normalisation), for the evidence
 }
 
 type LoadOpts struct {
-	Tests   bool
-	Env     []string
-	Overlay map[string][]byte
+	AnchorsFile string // reference table for alpha-normalisation ("" = off)
+	Tests       bool
+	Env         []string
+	Overlay     map[string][]byte
 }
 
 func Load(repo string, o LoadOpts) (*Ctx, error) {
+	if o.AnchorsFile != "" {
+		af := o.AnchorsFile
+		o.AnchorsFile = ""
+		if nov, notes := normaliseOverlay(repo, o.Overlay, af); len(notes) > 0 {
+			o2 := o
+			o2.Overlay = nov
+			if c, err := Load(repo, o2); err == nil {
+				c.Normalised = notes
+				return c, nil
+			}
+			// the normalised program does not type-check: analyse the tree as it is
+		}
+	}
 	os.Unsetenv("GOWORK")
 	env := append(os.Environ(), "GOFLAGS=-mod=mod", "GOPROXY=off", "GOSUMDB=off", "GOTOOLCHAIN=local", "GOWORK=off")
 	env = append(env, o.Env...)
